@@ -3,7 +3,7 @@
 From Coq Require Import List Bool.
 From Coq Require Import NArith.
 From Carquet Require Import Base.Res Gen.Dispatch_gen Gen.Intrinsics_gen Simd.DispatchModel Simd.DispatchProofs.
-From Carquet Require Import Simd.Vec Simd.ScalarKernels Simd.SseKernels Simd.Avx2Kernels Simd.Avx512Kernels Simd.BssProofs.
+From Carquet Require Import Simd.Vec Simd.ScalarKernels Simd.SseKernels Simd.Avx2Kernels Simd.Avx512Kernels Simd.BssProofs Simd.SeqProofs.
 Import ListNotations.
 
 (** Dispatcher: for EVERY capability set (any list of features) and every slot of the dispatch table
@@ -88,3 +88,62 @@ Theorem scalar_bss_encode_is_transposition : forall w count src out0,
               forall b i, b < w -> i < count -> nth (b * count + i) out 0%N = nth (i * w + b) src 0%N.
 Proof. exact scalar_bss_encode_transposes. Qed.
 Print Assumptions scalar_bss_encode_is_transposition.
+
+(** unpack_bools: carquet_{sse,avx2,avx512}_unpack_bools (input = ceil(count/8) bytes, output = count bytes) *)
+Theorem sse_unpack_bools_kernel_eq_scalar : forall count inp out0,
+  length inp = (count + 7) / 8 -> bytes_ok inp -> length out0 = count ->
+  exists out, sse_unpack_bools count inp out0 = Ok out /\ scalar_unpack_bools count inp out0 = Ok out.
+Proof. exact sse_unpack_bools_eq_scalar. Qed.
+Print Assumptions sse_unpack_bools_kernel_eq_scalar.
+Theorem avx2_unpack_bools_kernel_eq_scalar : forall count inp out0,
+  length inp = (count + 7) / 8 -> bytes_ok inp -> length out0 = count ->
+  exists out, avx2_unpack_bools count inp out0 = Ok out /\ scalar_unpack_bools count inp out0 = Ok out.
+Proof. exact avx2_unpack_bools_eq_scalar. Qed.
+Print Assumptions avx2_unpack_bools_kernel_eq_scalar.
+Theorem avx512_unpack_bools_kernel_eq_scalar : forall count inp out0,
+  length inp = (count + 7) / 8 -> bytes_ok inp -> length out0 = count ->
+  exists out, avx512_unpack_bools count inp out0 = Ok out /\ scalar_unpack_bools count inp out0 = Ok out.
+Proof. exact avx512_unpack_bools_eq_scalar. Qed.
+Print Assumptions avx512_unpack_bools_kernel_eq_scalar.
+
+(** dictionary gathers (the float / double entry points are the same code on 4 / 8 byte elements).
+    Domain: every index addresses an element of the dictionary ([gather_in_range]; page_reader.c validates
+    this before the call) and - for the hardware gather instructions, which sign-extend the 32-bit index -
+    is below 2^31 ([gather_small]; dictionary_count is an int32_t). *)
+Theorem sse_gather_i32_kernel_eq_scalar : forall count dict idxs out0,
+  length idxs = 4 * count -> gather_in_range 4 count dict idxs -> length out0 = 4 * count ->
+  exists out, sse_gather_i32 count dict idxs out0 = Ok out /\ scalar_gather 4 count dict idxs out0 = Ok out.
+Proof. exact sse_gather_i32_eq_scalar. Qed.
+Print Assumptions sse_gather_i32_kernel_eq_scalar.
+Theorem sse_gather_i64_kernel_eq_scalar : forall count dict idxs out0,
+  length idxs = 4 * count -> gather_in_range 8 count dict idxs -> length out0 = 8 * count ->
+  exists out, sse_gather_i64 count dict idxs out0 = Ok out /\ scalar_gather 8 count dict idxs out0 = Ok out.
+Proof. exact sse_gather_i64_eq_scalar. Qed.
+Print Assumptions sse_gather_i64_kernel_eq_scalar.
+Theorem avx2_gather_i32_kernel_eq_scalar : forall count dict idxs out0,
+  length idxs = 4 * count -> gather_in_range 4 count dict idxs -> gather_small count idxs -> length out0 = 4 * count ->
+  exists out, avx2_gather_i32 count dict idxs out0 = Ok out /\ scalar_gather 4 count dict idxs out0 = Ok out.
+Proof. exact avx2_gather_i32_eq_scalar. Qed.
+Print Assumptions avx2_gather_i32_kernel_eq_scalar.
+Theorem avx2_gather_i64_kernel_eq_scalar : forall count dict idxs out0,
+  length idxs = 4 * count -> gather_in_range 8 count dict idxs -> gather_small count idxs -> length out0 = 8 * count ->
+  exists out, avx2_gather_i64 count dict idxs out0 = Ok out /\ scalar_gather 8 count dict idxs out0 = Ok out.
+Proof. exact avx2_gather_i64_eq_scalar. Qed.
+Print Assumptions avx2_gather_i64_kernel_eq_scalar.
+Theorem avx512_gather_i32_kernel_eq_scalar : forall count dict idxs out0,
+  length idxs = 4 * count -> gather_in_range 4 count dict idxs -> gather_small count idxs -> length out0 = 4 * count ->
+  exists out, avx512_gather_i32 count dict idxs out0 = Ok out /\ scalar_gather 4 count dict idxs out0 = Ok out.
+Proof. exact avx512_gather_i32_eq_scalar. Qed.
+Print Assumptions avx512_gather_i32_kernel_eq_scalar.
+Theorem avx512_gather_i64_kernel_eq_scalar : forall count dict idxs out0,
+  length idxs = 4 * count -> gather_in_range 8 count dict idxs -> gather_small count idxs -> length out0 = 8 * count ->
+  exists out, avx512_gather_i64 count dict idxs out0 = Ok out /\ scalar_gather 8 count dict idxs out0 = Ok out.
+Proof. exact avx512_gather_i64_eq_scalar. Qed.
+Print Assumptions avx512_gather_i64_kernel_eq_scalar.
+
+(** fill_def_levels *)
+Theorem sse_fill_def_levels_kernel_eq_scalar : forall count v out0,
+  length out0 = 2 * count ->
+  exists out, sse_fill_def_levels count v out0 = Ok out /\ scalar_fill_def_levels count v out0 = Ok out.
+Proof. exact sse_fill_def_levels_eq_scalar. Qed.
+Print Assumptions sse_fill_def_levels_kernel_eq_scalar.
